@@ -123,6 +123,31 @@ def run_case(ctx, kind, rng, idx):
                 ctx.violation('committors.container-dependent',
                               '%s differs from dense by %.3g' % (
                                   c, np.abs(q - q_by['ndarray']).max()))
+    # ---- the same matrix object refilled in place between two calls -------
+    if idx % 2 == 0 and inter:
+        T2, _ = mc.irreducible_chain(rng, n=n)
+        buf = np.array(T)
+        try:
+            core.committors(buf, src_arg, snk_arg)
+            core.mfpts(buf, sinks=snk_arg)
+            buf[...] = T2
+            qb = np.asarray(core.committors(buf, src_arg, snk_arg),
+                            dtype=float).reshape(-1)
+            mb = np.asarray(core.mfpts(buf, sinks=snk_arg), dtype=float
+                            ).reshape(-1)
+            ctx.count('refilled_matrix_calls')
+            c2 = max(cond_of(T2, src + snk), cond_of(T2, snk), 1.0)
+            t2 = min(1e-4, 1e-9 * c2)
+            non = [i for i in range(n) if i not in snk]
+            if np.abs(qb[inter] - T2[inter] @ qb).max() > t2 or \
+                    np.abs(mb[non] - (1 + T2[non] @ mb)).max() > t2 * max(
+                        1.0, np.abs(mb).max()):
+                ctx.violation('tpt.stale-after-refill',
+                              'the same matrix object refilled with another '
+                              'chain: committors / mfpts do not follow the '
+                              'new contents')
+        except Exception as e:  # noqa
+            ctx.crash('tpt.refill.raised', e)
     # ---- mean first passage times --------------------------------------
     pops = mc.stationary(T) if rng.random() < 0.5 else None
     for cname in CONT:
